@@ -11,6 +11,12 @@ CHECKS = {
  "C01": ("exploration", "runtime monitor: restore-and-compare oracle over generated trees x option sets",
          "Generated hostile trees x all 216 option combinations are backed up and restored by the real code; an independent lstat/readlink/read walker compares source and result (bytes, kinds, targets, ns mtimes incl. pre-epoch, all 0..0o7777 modes, owners as root) and requires zero reported errors. Exploration is the right level: the input space is unbounded, the oracle is exact.",
          "Trusted: the harness walker and tmpfs semantics (/dev/shm); expected values are what the file system actually holds. Release profile.", "3 C01"),
+ "C02": ("exploration", "runtime monitor: snapshot model of versions checked by restore-and-compare after every step of generated histories",
+         "Random histories of tree mutations, backups with random options, backups killed at a random storage operation, deletes, dry runs and gcs run against the real code; after every step every surviving complete version is restored (by id and via LatestClosed) and compared with the snapshot its backup saw. Exploration of an unbounded history space with an exact oracle.",
+         "Trusted: harness snapshot walker; stop-the-world modelled by refusing every later storage operation; logical clock supplies the 'new mtime or size' precondition.", "3 C02"),
+ "C03": ("fault_enumeration", "runtime monitor: every crash point (and torn write) of a recorded storage trace replayed; independent format reader + stitch model + restore oracle at each state",
+         "For each scenario EVERY operation index of the backup's storage trace is a crash point (plus the torn-write variant for every write); at each resulting archive state the five clauses of the statement are decided by independent oracles. Exhaustive over crash points within each scenario, sampled over scenarios.",
+         "Trusted: E2 reader (snap, serde_json, blake2-rfc); the interceptor sees every storage effect (all archive I/O goes through Transport); kill = no further storage effect.", "3 C03"),
  "C11": ("exploration", "runtime monitor: executable order/validity model compared with Apath on exhaustive small alphabets + emitters observed on generated trees",
          "All pairs/triples of valid paths over two alphabets up to depth 4/3 and every string over a 13-component alphabet (exhaustive within the bound) are compared against an independent statement of the documented order and validity rule; the source walk, listings and independently decoded hunks of generated trees must be strictly increasing under it.",
          "Trusted: oracle::apath_key as restatement of doc/format.md; snap + serde_json to decode hunks.", "3 C11"),
